@@ -41,6 +41,7 @@ CONSTANTS Impl,        \* FALSE: intended semantics; TRUE: code-shaped semantics
           Tags,        \* content tags of caller-made arrays (subset of 1..9)
           MaxOps,      \* bound on the number of operations of a behaviour
           Record,      \* TRUE: keep the operation sequence in `path' (one state per behaviour)
+          Labels,      \* TRUE: `last' carries the full operation label (replay); FALSE: only its class
           Getters      \* FALSE: leave out the pure getters (heap no-ops; the harness calls all of them
                        \* after every step anyway) - used to enumerate longer operation sequences
 
@@ -85,7 +86,7 @@ DLists(S) == IF S.d.on THEN {S.d.hist[k] : k \in Keys} ELSE {}
 
 NoD     == [on |-> FALSE, cur |-> [k \in AK |-> 0], beta |-> 0, hist |-> [k \in Keys |-> 0]]
 NoCache == [on |-> FALSE, c |-> [k \in RK |-> 0]]
-NoDisk  == [on |-> FALSE, cur |-> [k \in AK |-> NONE], beta |-> 0, hist |-> [k \in Keys |-> <<>>]]
+NoDisk  == [on |-> FALSE, cur |-> [k \in AK |-> << -1 >>], beta |-> 0, hist |-> [k \in AK |-> <<>>], bhist |-> <<>>]
 
 \* prune what the caller holds to what can still matter, free everything unreachable
 Norm(S) ==
@@ -101,8 +102,29 @@ Norm(S) ==
 FreeC(S) == {c \in 1..MaxC : S.arr[c] = FREE}
 FreeL(S) == {l \in 1..MaxL : S.lst[l] = FREE}
 Pick(F, n) == CHOOSE c \in F : Cardinality({e \in F : e < c}) = n - 1
-A(S, n)  == Pick(FreeC(S), n)     \* n-th free array cell
+A(S, n)  == Pick(FreeC(S), n)     \* n-th free array cell (smallest first)
 AL(S, n) == Pick(FreeL(S), n)     \* n-th free list cell
+
+\* Allocation of a whole structure at once.  Slot p of the layout: p = 1, 2 -> cur["x"], cur["logl"];
+\* p = 2 + (j-1)*MaxCommits + i -> batch i of the history of the j-th array key.  Slot p is backed by the
+\* p-th free cell.  curc[k] / histc[k][i] are the CONTENTS to store (FREE = nothing to store).
+AKs == <<"x", "logl">>
+NSlots == 2 + 2 * MaxCommits
+Place(S, curc, histc) ==
+    LET F   == FreeC(S)
+        rk  == [c \in 1..MaxC |-> Cardinality({e \in F : e < c}) + 1]
+        fs  == [p \in 1..NSlots |-> Pick(F, p)]
+        cnt == [p \in 1..NSlots |->
+                  IF p <= 2 THEN curc[AKs[p]]
+                  ELSE LET k == AKs[((p - 3) \div MaxCommits) + 1]
+                           i == ((p - 3) % MaxCommits) + 1
+                       IN  IF i <= Len(histc[k]) THEN histc[k][i] ELSE FREE]
+    IN  [arr  |-> [c \in 1..MaxC |-> IF c \in F /\ rk[c] <= NSlots THEN cnt[rk[c]] ELSE S.arr[c]],
+         cur  |-> [k \in AK |-> IF curc[k] = FREE THEN 0 ELSE fs[KIdx(k)]],
+         hist |-> [k \in AK |-> [i \in 1..Len(histc[k]) |-> fs[2 + (KIdx(k) - 1) * MaxCommits + i]]]]
+
+ContOrFree(S, c) == IF c = 0 THEN FREE ELSE S.arr[c]
+Conts(S, L) == [i \in 1..Len(L) |-> S.arr[L[i]]]
 
 Cont(S, c) == IF c = 0 THEN NONE ELSE S.arr[c]
 
@@ -152,26 +174,23 @@ UpdNew(S, t, b, copy) ==
 
 \* commit_current_to_history(): one fresh copy per non-None key, appended
 CommitOp(S) ==
-    LET nx == A(S, 1)  nl == A(S, 2)
-        new(k) == IF k = "x" THEN nx ELSE nl
+    LET P == Place(S, [k \in AK |-> ContOrFree(S, S.cur[k])], [k \in AK |-> <<>>])
     IN  Inval([S EXCEPT
-          !.arr = [c \in 1..MaxC |->
-                     IF c = nx /\ S.cur["x"] # 0 THEN S.arr[S.cur["x"]]
-                     ELSE IF c = nl /\ S.cur["logl"] # 0 THEN S.arr[S.cur["logl"]]
-                     ELSE S.arr[c]],
+          !.arr = P.arr,
           !.lst = [l \in 1..MaxL |->
                      IF \E k \in AK : l = S.hl[k] /\ S.cur[k] # 0
-                       THEN Append(S.lst[l], new(CHOOSE k \in AK : l = S.hl[k] /\ S.cur[k] # 0))
+                       THEN Append(S.lst[l], P.cur[CHOOSE k \in AK : l = S.hl[k] /\ S.cur[k] # 0])
                      ELSE IF l = S.hl["beta"] /\ S.beta # 0 THEN Append(S.lst[l], S.beta)
                      ELSE S.lst[l]]])
 
 \* compute_results(): build the cache if absent (one stacked array per history key + logw) ...
 BuildCache(S) ==
     IF S.cache.on THEN S
-    ELSE LET n(k) == A(S, KIdx(k))
-         IN  [S EXCEPT !.arr = [c \in 1..MaxC |-> IF \E k \in RK : c = n(k)
-                                                    THEN Stack(S, CHOOSE k \in RK : c = n(k)) ELSE S.arr[c]],
-                       !.cache = [on |-> TRUE, c |-> [k \in RK |-> n(k)]]]
+    ELSE LET F  == FreeC(S)
+             n  == [k \in RK |-> Pick(F, KIdx(k))]
+         IN  [S EXCEPT !.arr = [c \in 1..MaxC |-> IF \E k \in RK : c = n[k]
+                                                    THEN Stack(S, CHOOSE k \in RK : c = n[k]) ELSE S.arr[c]],
+                       !.cache = [on |-> TRUE, c |-> n]]
 \* ... intended: hand out a copy (fresh dict, fresh arrays: inert); code: hand out the cache itself
 ResultsOp(S) ==
     LET S1 == BuildCache(S)
@@ -179,127 +198,74 @@ ResultsOp(S) ==
 
 DropD(S) == Norm([S EXCEPT !.d = NoD])     \* the caller lets go of the previous export dict
 
-\* cell layout of an export / import: cur[k] -> KIdx(k); hist[k][i] -> 2 + (KIdx(k)-1)*MaxCommits + i
-Slot(k, i) == 2 + (KIdx(k) - 1) * MaxCommits + i
+\* a new export-shaped dict around the given cells: three NEW list objects
+NewDict(S, arr, curf, betav, histf) ==
+    LET FL == FreeL(S)
+        nl == [k \in Keys |-> Pick(FL, KIdx(k))]
+        S1 == [S EXCEPT
+                 !.arr = arr,
+                 !.lst = [l \in 1..MaxL |-> IF \E k \in Keys : l = nl[k]
+                                             THEN histf[CHOOSE k \in Keys : l = nl[k]] ELSE S.lst[l]],
+                 !.d = [on |-> TRUE, cur |-> curf, beta |-> betav, hist |-> nl],
+                 !.lext = @ \cup {nl[k] : k \in Keys}]
+    IN  [S1 EXCEPT !.ext = @ \cup DCells(S1)]
 
 \* to_dict(): intended = deep copy; code = new dicts and new lists around the SAME arrays
 ToDictOp(S0) ==
-    LET S  == DropD(S0)
-        nl(k) == AL(S, KIdx(k))
+    LET S == DropD(S0)
     IN  IF Impl
-        THEN LET S1 == [S EXCEPT
-                   !.lst = [l \in 1..MaxL |-> IF \E k \in Keys : l = nl(k)
-                                               THEN H(S, CHOOSE k \in Keys : l = nl(k)) ELSE S.lst[l]],
-                   !.d = [on |-> TRUE, cur |-> S.cur, beta |-> S.beta, hist |-> [k \in Keys |-> nl(k)]],
-                   !.lext = @ \cup {nl(k) : k \in Keys}]
-             IN  [S1 EXCEPT !.ext = @ \cup DCells(S1)]
-        ELSE LET nc(k) == A(S, KIdx(k))
-                 nh(k, i) == A(S, Slot(k, i))
-                 S1 == [S EXCEPT
-                   !.arr = [c \in 1..MaxC |->
-                      IF \E k \in AK : c = nc(k) /\ S.cur[k] # 0
-                        THEN S.arr[S.cur[CHOOSE k \in AK : c = nc(k) /\ S.cur[k] # 0]]
-                      ELSE IF \E k \in AK : \E i \in 1..Len(H(S, k)) : c = nh(k, i)
-                        THEN LET ki == CHOOSE ki \in AK \X (1..MaxCommits) :
-                                          ki[2] <= Len(H(S, ki[1])) /\ c = nh(ki[1], ki[2])
-                             IN  S.arr[H(S, ki[1])[ki[2]]]
-                      ELSE S.arr[c]],
-                   !.lst = [l \in 1..MaxL |->
-                      IF l = nl("beta") THEN H(S, "beta")
-                      ELSE IF \E k \in AK : l = nl(k)
-                        THEN LET k == CHOOSE k \in AK : l = nl(k) IN [i \in 1..Len(H(S, k)) |-> nh(k, i)]
-                      ELSE S.lst[l]],
-                   !.d = [on |-> TRUE, cur |-> [k \in AK |-> IF S.cur[k] = 0 THEN 0 ELSE nc(k)],
-                          beta |-> S.beta, hist |-> [k \in Keys |-> nl(k)]],
-                   !.lext = @ \cup {nl(k) : k \in Keys}]
-             IN  [S1 EXCEPT !.ext = @ \cup DCells(S1)]
+        THEN NewDict(S, S.arr, S.cur, S.beta, [k \in Keys |-> H(S, k)])
+        ELSE LET P == Place(S, [k \in AK |-> ContOrFree(S, S.cur[k])], [k \in AK |-> Conts(S, H(S, k))])
+             IN  NewDict(S, P.arr, P.cur, S.beta,
+                         [k \in Keys |-> IF k = "beta" THEN H(S, "beta") ELSE P.hist[k]])
 
 \* the caller builds an export-shaped dict from its own new arrays (n batches per key, tag t)
 MakeDictOp(S0, t, n) ==
-    LET S  == DropD(S0)
-        nl(k) == AL(S, KIdx(k))
-        nc(k) == A(S, KIdx(k))
-        nh(k, i) == A(S, Slot(k, i))
-        S1 == [S EXCEPT
-           !.arr = [c \in 1..MaxC |->
-                      IF (\E k \in AK : c = nc(k)) \/ (\E k \in AK : \E i \in 1..n : c = nh(k, i))
-                        THEN <<t>> ELSE S.arr[c]],
-           !.lst = [l \in 1..MaxL |->
-                      IF l = nl("beta") THEN [i \in 1..n |-> 1]
-                      ELSE IF \E k \in AK : l = nl(k)
-                        THEN LET k == CHOOSE k \in AK : l = nl(k) IN [i \in 1..n |-> nh(k, i)]
-                      ELSE S.lst[l]],
-           !.d = [on |-> TRUE, cur |-> [k \in AK |-> nc(k)], beta |-> 1, hist |-> [k \in Keys |-> nl(k)]],
-           !.lext = @ \cup {nl(k) : k \in Keys}]
-    IN  [S1 EXCEPT !.ext = @ \cup DCells(S1)]
+    LET S == DropD(S0)
+        P == Place(S, [k \in AK |-> <<t>>], [k \in AK |-> [i \in 1..n |-> <<t>>]])
+    IN  NewDict(S, P.arr, P.cur, 1, [k \in Keys |-> IF k = "beta" THEN [i \in 1..n |-> 1] ELSE P.hist[k]])
+
+\* store copies of (curc, betav, histc) in the manager's own dicts and lists
+StoreCopies(S, curc, betav, histc, bh) ==
+    LET P == Place(S, curc, histc)
+    IN  Inval([S EXCEPT !.arr = P.arr, !.cur = P.cur, !.beta = betav,
+                        !.lst = [l \in 1..MaxL |->
+                                   IF l = S.hl["beta"] THEN bh
+                                   ELSE IF \E k \in AK : l = S.hl[k] THEN P.hist[CHOOSE k \in AK : l = S.hl[k]]
+                                   ELSE S.lst[l]]])
 
 \* update_from_dict(d): intended = store copies (the internal list objects stay the manager's own);
 \* code = dict.update: the caller's arrays and the caller's LIST objects become internal
 ImportOp(S) ==
     IF Impl
     THEN Inval([S EXCEPT !.cur = S.d.cur, !.beta = S.d.beta, !.hl = S.d.hist])
-    ELSE LET nc(k) == A(S, KIdx(k))
-             nh(k, i) == A(S, Slot(k, i))
-             DH(k) == S.lst[S.d.hist[k]]
-         IN  Inval([S EXCEPT
-               !.arr = [c \in 1..MaxC |->
-                  IF \E k \in AK : c = nc(k) /\ S.d.cur[k] # 0
-                    THEN S.arr[S.d.cur[CHOOSE k \in AK : c = nc(k) /\ S.d.cur[k] # 0]]
-                  ELSE IF \E k \in AK : \E i \in 1..Len(DH(k)) : c = nh(k, i)
-                    THEN LET ki == CHOOSE ki \in AK \X (1..MaxCommits) :
-                                      ki[2] <= Len(DH(ki[1])) /\ c = nh(ki[1], ki[2])
-                         IN  S.arr[DH(ki[1])[ki[2]]]
-                  ELSE S.arr[c]],
-               !.cur  = [k \in AK |-> IF S.d.cur[k] = 0 THEN 0 ELSE nc(k)],
-               !.beta = S.d.beta,
-               !.lst  = [l \in 1..MaxL |->
-                  IF l = S.hl["beta"] THEN DH("beta")
-                  ELSE IF \E k \in AK : l = S.hl[k]
-                    THEN LET k == CHOOSE k \in AK : l = S.hl[k] IN [i \in 1..Len(DH(k)) |-> nh(k, i)]
-                  ELSE S.lst[l]]])
+    ELSE StoreCopies(S, [k \in AK |-> ContOrFree(S, S.d.cur[k])], S.d.beta,
+                     [k \in AK |-> Conts(S, S.lst[S.d.hist[k]])], S.lst[S.d.hist["beta"]])
 
-\* StateManager.from_dict(d) replaces the instance: a new manager (empty), then the same import
-Blank(S) == Inval([S EXCEPT !.cur = [k \in AK |-> 0], !.beta = 0,
-                            !.lst = [l \in 1..MaxL |-> IF l \in IntLists(S) THEN <<>> ELSE S.lst[l]]])
+\* StateManager.from_dict(d) replaces the instance by a new, empty one and performs the same import
+\* (the old instance is garbage).  Intended: the new manager's own (empty) lists receive copies - the old
+\* list identities are reused for them, they were never the caller's.  Code: dict.update overwrites every
+\* entry with the caller's objects, so nothing of the blank instance survives.
 FromDictOp(S) ==
-    \* the old instance is garbage; its lists are not the caller's: keep their identity for the new one
-    \* unless (code) the lists were shared with the dict being imported - then new empty ones are used
-    IF \E k \in Keys : S.hl[k] \in DLists(S)
-    THEN LET S1 == [S EXCEPT !.hl = [k \in Keys |-> AL(S, KIdx(k))]]
-             S2 == [S1 EXCEPT !.lst = [l \in 1..MaxL |-> IF l \in IntLists(S1) THEN <<>> ELSE S1.lst[l]]]
-         IN  ImportOp(Inval([S2 EXCEPT !.cur = [k \in AK |-> 0], !.beta = 0]))
-    ELSE ImportOp(Blank(S))
+    IF Impl THEN ImportOp(S)
+    ELSE ImportOp(Inval([S EXCEPT !.cur = [k \in AK |-> 0], !.beta = 0,
+                                  !.lst = [l \in 1..MaxL |-> IF l \in IntLists(S) THEN <<>> ELSE S.lst[l]]]))
 
 \* save_state(): pickles the live dicts to disk - contents only, nothing is handed to the caller
 SaveOp(S) ==
-    [S EXCEPT !.disk = [on |-> TRUE, cur |-> [k \in AK |-> Cont(S, S.cur[k])], beta |-> S.beta,
-                        hist |-> [k \in Keys |-> IF k = "beta" THEN [i \in 1..Len(H(S, k)) |-> <<H(S, k)[i]>>]
-                                                  ELSE [i \in 1..Len(H(S, k)) |-> S.arr[H(S, k)[i]]]]]]
+    [S EXCEPT !.disk = [on |-> TRUE, cur |-> [k \in AK |-> ContOrFree(S, S.cur[k])], beta |-> S.beta,
+                        hist |-> [k \in AK |-> Conts(S, H(S, k))], bhist |-> H(S, "beta")]]
 
 \* load_state(): unpickled objects are fresh and nobody else holds them
-LoadOp(S) ==
-    LET nc(k) == A(S, KIdx(k))
-        nh(k, i) == A(S, Slot(k, i))
-        DH(k) == S.disk.hist[k]
-    IN  Inval([S EXCEPT
-          !.arr = [c \in 1..MaxC |->
-             IF \E k \in AK : c = nc(k) /\ S.disk.cur[k] # NONE
-               THEN S.disk.cur[CHOOSE k \in AK : c = nc(k) /\ S.disk.cur[k] # NONE]
-             ELSE IF \E k \in AK : \E i \in 1..Len(DH(k)) : c = nh(k, i)
-               THEN LET ki == CHOOSE ki \in AK \X (1..MaxCommits) :
-                                 ki[2] <= Len(DH(ki[1])) /\ c = nh(ki[1], ki[2])
-                    IN  DH(ki[1])[ki[2]]
-             ELSE S.arr[c]],
-          !.cur  = [k \in AK |-> IF S.disk.cur[k] = NONE THEN 0 ELSE nc(k)],
-          !.beta = S.disk.beta,
-          !.lst  = [l \in 1..MaxL |->
-             IF l = S.hl["beta"] THEN [i \in 1..Len(DH("beta")) |-> DH("beta")[i][1]]
-             ELSE IF \E k \in AK : l = S.hl[k]
-               THEN LET k == CHOOSE k \in AK : l = S.hl[k] IN [i \in 1..Len(DH(k)) |-> nh(k, i)]
-             ELSE S.lst[l]]])
+LoadOp(S) == StoreCopies(S, S.disk.cur, S.disk.beta, S.disk.hist, S.disk.bhist)
 
 -----------------------------------------------------------------------------
 (* State machine: one action per public method / caller move *)
+
+ScribbleOps == {"scribble", "scribble_list", "scribble_resdict"}
+ImportOps   == {"update_from_dict", "from_dict", "load_state"}
+Class(op) == IF op \in ScribbleOps THEN "scribble" ELSE IF op \in ImportOps THEN "load_state"
+             ELSE IF op = "commit" THEN "commit" ELSE "other"
 
 Lbl(op, k, t, i, cp) == [op |-> op, k |-> k, t |-> t, i |-> i, cp |-> cp]
 
@@ -316,7 +282,7 @@ Init ==
 Step(S, l) ==
     /\ Len(path) < MaxOps
     /\ s' = Norm(S)
-    /\ last' = l
+    /\ last' = IF Labels THEN l ELSE [l EXCEPT !.op = Class(l.op), !.k = "", !.t = 0, !.i = 0]
     /\ path' = Append(path, IF Record THEN l ELSE 0)   \* ~Record: a depth counter only
 
 \* pure getters: fresh cells in both variants, heap unchanged
@@ -381,9 +347,6 @@ NoAlias ==
 
 \* the results cache, when present, is the image of the history
 CacheCoherent == s.cache.on => \A k \in RK : Cont(s, s.cache.c[k]) = Stack(s, k)
-
-ScribbleOps == {"scribble", "scribble_list", "scribble_resdict"}
-ImportOps   == {"update_from_dict", "from_dict", "load_state"}
 
 \* a caller overwriting what it holds (opt-in arrays excepted) never changes what accessors return
 Stable == [][(last'.op \in ScribbleOps /\ ~last'.cp) => View(s') = View(s)]_vars
